@@ -9,7 +9,7 @@ from pbt.harness import KARY, PARTITIONS, RngScript, Session, algo_label, leaves
 
 PROP = "C02"
 RULE = (
-    "subcheck 'direct': partition class x K in 2..6 x d in 1..4 x box x an expansion order (deepen / expand leaf #j with the "
+    "subcheck 'direct': partition class x K in 2..33 x d in 1..4 x box x an expansion order (deepen / expand leaf #j with the "
     "callers' newlayer convention) x injected split dimensions and split fractions (end-point draws included), every "
     "make_children judged by the exact predicate (arity, containment, grid tiling = union is the parent and interiors "
     "disjoint hence bit-identical shared faces, only split dimensions change, equal sides to 8 ulp for the equal-size "
@@ -33,7 +33,7 @@ def direct_cases(draw, tier):
     cls = draw(st.sampled_from(sorted(PARTITIONS)))
     pspec = {"cls": cls}
     if cls in KARY:
-        pspec["K"] = draw(st.integers(2, 6))
+        pspec["K"] = draw(st.one_of(st.integers(2, 6), st.integers(7, 33)))  # "all arities K >= 2"
     nops = draw(st.integers(1, 12 if tier == "quick" else 30))
     ops = []
     for _ in range(nops):
